@@ -479,20 +479,53 @@ def _callback_rule(repo, L, cb, finder):
             ok5 = len(bound & used) >= 2 or bool(tgt_names & used)
             why5 = "the message does not show both fragments of the pair"
     L.check(ok5, "R5", rep.short, "one message per recorded pair showing both fragments", why5, rep.loc())
-    # process_fh: report called with the finder's result under the qc flag
-    ok5b = False
-    for n in walk_shallow(proc.node):
-        if isinstance(n, ast.If):
-            calls_rep = [c for s in n.body for c in [s, *walk_shallow(s)] if isinstance(c, ast.Call) and dotted(c.func) == rep.name]
-            if calls_rep:
-                t = norm(n.test)
-                ok5b = "find_overlapping_fragments" in t and any(q in t for q in proc.params() if "qc" in q or "overlap" in q)
-                if ok5b:
-                    # argument passed is the walrus-bound result
-                    w = [x for x in ast.walk(n.test) if isinstance(x, ast.NamedExpr)]
-                    names = {x.target.id for x in w}
-                    ok5b = any(isinstance(a, ast.Name) and a.id in names for a in calls_rep[0].args) or not w
-    L.check(ok5b, "R5", proc.short, "reporter receives the scan result when --qc-overlaps is set", "process_fh does not pass the scan result to the reporter under the qc flag", proc.loc())
+    # process_fh: report called with the finder's result under the qc flag — decided per path: every path on which the
+    # qc flag is true and the scan result is truthy calls the reporter with that result; no path calls it otherwise
+    from ..flow import cond_facts as _cf
+    from ..util import paths as _paths
+
+    qcp = next((q for q in proc.params() if "qc" in q or "overlap" in q), None)
+    if qcp is None:
+        raise AnalysisError(f"{proc.short}: qc flag parameter not found")
+    ok5b, why5b, n_rep = True, "", 0
+    for pth in _paths(proc, (0,), exc_edges=False):
+        if pth.status == "raise":
+            continue
+        flag = None
+        res_names, res_truth = set(), None
+        scanned = False
+        rep_args = None
+        for e in pth.events:
+            nodes = [e.node, *walk_shallow(e.node)] if e.kind in ("stmt", "cond") else []
+            for x in nodes:
+                if isinstance(x, ast.Call) and isinstance(x.func, ast.Attribute) and x.func.attr == "find_overlapping_fragments":
+                    scanned = True
+                    par = getattr(x, "_parent", None)
+                    if isinstance(par, ast.NamedExpr):
+                        res_names.add(par.target.id)
+                    elif isinstance(par, ast.Assign) and isinstance(par.targets[0], ast.Name):
+                        res_names.add(par.targets[0].id)
+                if isinstance(x, ast.Call) and dotted(x.func) == rep.name:
+                    rep_args = [norm(a) for a in x.args]
+            if e.kind == "cond":
+                for t, v in _cf(e.node, e.val):
+                    if isinstance(t, ast.Name) and t.id == qcp:
+                        flag = v
+                    if isinstance(t, ast.NamedExpr) and t.target.id in res_names:
+                        res_truth = v
+                    if isinstance(t, ast.Name) and t.id in res_names:
+                        res_truth = v
+        if rep_args is not None:
+            n_rep += 1
+            if flag is not True or not scanned or not (res_names & set(rep_args)):
+                ok5b, why5b = False, f"the reporter is called with {rep_args} on a path where the qc flag is {flag} / the scan result is {sorted(res_names)}"
+        elif flag is True and scanned and res_truth is True:
+            ok5b, why5b = False, "a path with the qc flag set and a non-empty scan result does not call the reporter"
+        elif flag is True and not scanned:
+            ok5b, why5b = False, "with the qc flag set a path does not scan for overlaps"
+    if n_rep == 0 and ok5b:
+        ok5b, why5b = False, "the reporter is never called"
+    L.check(ok5b, "R5", proc.short, "reporter receives the scan result when --qc-overlaps is set", "process_fh does not pass the scan result to the reporter under the qc flag: " + why5b, proc.loc())
 
 
 class _ScanExec(SymExec):
